@@ -40,7 +40,7 @@ def keywords():
 
 def make_ident(rng, base, classes=None):
     """returns (spelled, bare)"""
-    cls = rng.choice(classes or ["lower", "upper", "mixed", "dq", "bt", "br", "dq", "br", "kw_dq", "kw_bt", "kw_br", "space_dq", "underscore", "nested", "digit",
+    cls = rng.choice(classes or ["lower", "upper", "mixed", "dq", "bt", "br", "dq", "br", "kw_dq", "kw_bt", "kw_br", "space_dq", "underscore", "nested", "digit", "blanks2_dq", "doubled_delim",
                                  "special", "special_delim", "kwprefix", "kwprefix", "long"])
     if cls == "long":           # very long names (the lexer has no length limit)
         name = base + "_" + "".join(rng.choice("abcxyz_019") for _ in range(rng.choice([64, 128, 300])))
@@ -87,6 +87,13 @@ def make_ident(rng, base, classes=None):
     if cls == "space_dq":
         name = base[:3] + " " + base[3:]
         return '"' + name + '"', name
+    if cls == "blanks2_dq":     # two or three blanks in a row inside a double-quoted name
+        name = base[:3] + rng.choice(["  ", "   "]) + base[3:]
+        return '"' + name + '"', name
+    if cls == "doubled_delim":  # the name's own text begins / ends with the delimiter character: still exactly one pair goes
+        form = rng.choice(["[[%s]]", "[%s]]]", "[%s]]"])
+        name = form % base
+        return name, name[1:-1]
     raise ValueError(cls)
 
 
@@ -430,7 +437,7 @@ def run_shard(ctx):
     for j in range(ctx.budget(700, 15000)):
         classes = None
         if j % 5 == 0:
-            classes = [rng.choice(["lower", "upper", "mixed", "dq", "bt", "br", "kw_dq", "kw_bt", "kw_br", "space_dq", "underscore", "nested", "digit"])]
+            classes = [rng.choice(["lower", "upper", "mixed", "dq", "bt", "br", "kw_dq", "kw_bt", "kw_br", "space_dq", "underscore", "nested", "digit", "blanks2_dq", "doubled_delim"])]
         case = gen_script(rng, classes)
         check_case(ctx, case)
         if j == 0:
